@@ -121,7 +121,7 @@ class Producers:
     def quantile(self, kind, level):
         """(kind, lo rank, hi rank) of the Ok path of quantile::Stats::ci."""
         fn = self.facts.inherent('quantile::Stats', 'ci')
-        paths = self.summ(fn, ['self', 'confidence', 'q'], [by_ref(('adt', 'quantile::Stats', 0, (T.sym('n'),))), self.cm.value(kind, level), None])
+        paths = self.summ(fn, ['self', 'confidence', 'q'], [by_ref(self.facts.struct_state('quantile::Stats', [T.sym('n')]) or ('adt', 'quantile::Stats', 0, (T.sym('n'),))), self.cm.value(kind, level), None])
         dom = self.dom({'n': (Fraction(4), None, False, True), 'q': (Fraction(0), Fraction(1), True, True)})
         oks = [p for p, r in prune(paths, dom) if p.is_ret() and unwrap_ok(p.ret) is not None]
         decs = set(self.decode_ok(p) for p in oks)
